@@ -7,6 +7,7 @@ pub type SchedCallback = Arc<dyn Fn(&'static str, u64) + Send + Sync + 'static>;
 
 lazy_static! {
     static ref SCHED_CB: RwLock<Option<SchedCallback>> = RwLock::new(None);
+    static ref OBSERVER_CB: RwLock<Option<SchedCallback>> = RwLock::new(None);
     static ref EPOCH_OVERRIDE: RwLock<Option<(u64, Vec<String>)>> = RwLock::new(None);
 }
 
@@ -22,6 +23,18 @@ pub fn clear_sched() {
 /// `val` carries a cheap scalar (e.g. a task id or a loaded value) for trace logging.
 pub fn sched_point(label: &'static str, val: u64) {
     let cb = SCHED_CB.read().clone();
+    if let Some(cb) = cb {
+        cb(label, val);
+    }
+}
+
+pub fn install_observer(cb: SchedCallback) {
+    *OBSERVER_CB.write() = Some(cb);
+}
+
+/// Called right after a shared-memory access with the observed value (logging only).
+pub fn observe(label: &'static str, val: u64) {
+    let cb = OBSERVER_CB.read().clone();
     if let Some(cb) = cb {
         cb(label, val);
     }
